@@ -85,6 +85,30 @@ theorem resolve_ok_resolved (parseIp : String → Option String) (lookup : Strin
           refine ⟨?_, setAddrs_wf r _⟩
           intro hn; exact hu ((unresolved_iff_none _).mpr hn)
 
+/-- `take_addrs` hands out exactly the carried addresses, in order, and leaves the request unresolved:
+whatever was set before, a request whose addresses were taken goes through resolution again (an
+IP-literal host directly, any other host through the configured resolver, exactly once), and handed to
+the bare TCP connector it is `Unresolved` — never the `unwrap` panic of an empty address list -/
+theorem take_addrs_unresolves (parseIp : String → Option String) (lookup : String → Nat → Lookup)
+    {S : Type} (connect : Addr → Except Nat S) (r : Req) :
+    r.takeAddrs.2 = r.addr.toList ∧ r.takeAddrs.1.addr = .none ∧ r.takeAddrs.1.addr.wf ∧
+    r.takeAddrs.1.effPort = r.effPort ∧ r.takeAddrs.1.hostname = r.hostname ∧
+    dial connect r.takeAddrs.1.addr = some { result := .error .unresolved, tried := [] } ∧
+    (parseIp r.hostname = none →
+      (resolve parseIp lookup r.takeAddrs.1).lookups = [(r.hostname, r.effPort)]) := by
+  refine ⟨rfl, rfl, trivial, rfl, rfl, rfl, ?_⟩
+  intro hn
+  have ha : r.takeAddrs.1.addr = .none := rfl
+  have hn' : parseIp r.takeAddrs.1.hostname = none := hn
+  cases hl : lookup r.takeAddrs.1.hostname r.takeAddrs.1.effPort with
+  | fail => exact (resolver_error parseIp lookup r.takeAddrs.1 ha hn' hl).2
+  | ok l =>
+    cases l with
+    | nil => exact (no_records parseIp lookup r.takeAddrs.1 ha hn' hl).2
+    | cons x t =>
+      obtain ⟨_, _, _, _, _, _, _, h⟩ := resolver_answer_used parseIp lookup r.takeAddrs.1 (x :: t) ha hn' hl (by simp)
+      exact h
+
 /-! ### `set_addrs` normalisation, `port()` precedence, host parsing -/
 
 /-- `set_addrs` keeps the addresses and their order; 0 ⇒ `None`, 1 ⇒ `One`, ≥ 2 ⇒ `Multi` -/
@@ -369,6 +393,8 @@ example : ((resolve pIp lk (Req.new (hostOfString "two.test:443"))).result.toOpt
     = some [{ ip := "127.0.0.1", port := 443 }, { ip := "::1", port := 443 }] := by decide
 example : (resolve pIp lk (Req.new (hostOfString "empty.test:443"))).lookups = [("empty.test", 443)] := by decide
 example : (resolve pIp lk (Req.new (hostOfString "nx.test"))).lookups = [("nx.test", 0)] := by decide
+example : (((Req.new (hostOfString "x.test:1")).setAddrs [a1, a2]).takeAddrs.2 = [a1, a2]) ∧
+    (resolve pIp lk ((Req.new (hostOfString "two.test:7")).setAddrs [a1, a2]).takeAddrs.1).lookups = [("two.test", 7)] := by decide
 example : hostOfString "example.com:false:false" = { hostname := "example.com", port := none } := by decide
 example : (dial conn1 (.multi [a1, a2, a3, a1])).map (·.tried) = some [a1, a2, a3] := by decide
 example : (dial conn1 (.multi [a1, a2])).map (·.result) = some (.error (.io 101)) := by rfl
